@@ -109,6 +109,10 @@ impl FromStr for AttoTokens {
                     "Can't parse token remainder".to_string(),
                 ));
             }
+            // at most 18 fractional digits, trailing zeros included
+            if remainder_str.len() as u64 > TOKEN_TO_RAW_POWER_OF_10_CONVERSION {
+                return Err(EvmError::LossOfPrecision);
+            }
             let remainder_str = remainder_str.trim_end_matches('0');
 
             if remainder_str.is_empty() {
